@@ -34,12 +34,12 @@ READS = ['GBk', 'areaFactor', 'volumeFactor', 'gbRemoval', 'areaRemoval']
 
 def plan(tier):
     if tier == 'quick':
-        return dict(runs=1500 + 260, batch=10, hard_timeout=600, soft_timeout=150)
+        return dict(runs=2500 + 400, batch=10, hard_timeout=600, soft_timeout=150)
     return dict(runs=100000 + 10000, batch=50, hard_timeout=1800, soft_timeout=300)
 
 
 def generate(rng, tier, index):
-    nmach = 1500 if tier == 'quick' else 100000
+    nmach = 2500 if tier == 'quick' else 100000
     if index < nmach:
         ops = []
         for _ in range(rng.randint(3, 30)):
